@@ -8,8 +8,9 @@
  *   oput <val>          uper_open_type_put of the value => bit string
  *   oget <bits>         uper_open_type_get of the current type from the bit string => "<rc> <bits moved>"
  *   odec <syn> <hex>    like core `dec`, but the decoded structure is printed / validated / re-encoded only after
- *                       RC_OK (a partially decoded structure is just freed): keeps defects of asn_fprint and of
- *                       the constraint checkers on half-built structures (other properties) out of this check
+ *                       RC_OK (a partially decoded structure is just freed) and asn_check_constraints is not
+ *                       called: keeps defects of asn_fprint on half-built structures and of the emitted constraint
+ *                       checkers (other properties) out of this check
  */
 #include "gen_common.h"
 #include <asn_ioc.h>
@@ -39,6 +40,7 @@ static int sink_cb(const void *b, size_t n, void *k) {
     memcpy(s->buf + s->len, b, n); s->len += n;
     return 0;
 }
+static int sink_null(const void *b, size_t n, void *k) { (void)b; (void)n; (void)k; return 0; }
 static void print_bits(FILE *out, const uint8_t *b, size_t nbits) {
     if(nbits == 0) { fputc('-', out); return; }
     for(size_t i = 0; i < nbits; i++) fputc((b[i >> 3] >> (7 - (i & 7))) & 1 ? '1' : '0', out);
@@ -130,7 +132,16 @@ int ops_gen_c18(int argc, char **argv, FILE *out) {
         void *st = 0;
         asn_dec_rval_t rv = asn_decode(0, syn, cur_td, &st, b, len);
         fprintf(out, "%s %zu ", gen_rc_name(rv.code), rv.consumed);
-        if(rv.code == RC_OK && st) { rf_dump(cur_td, st, out); gen_exercise(cur_td, st); } else fputc('-', out);
+        if(rv.code == RC_OK && st) {
+            /* print + DER + CANONICAL-XER re-encode of the decoded value (asn_check_constraints is left out: the emitted
+             * checker of `INTEGER (0..MAX)`-like constraints recurses forever on the unchanged tree, another property) */
+            static FILE *devnull;
+            if(!devnull) devnull = fopen("/dev/null", "w");
+            rf_dump(cur_td, st, out);
+            asn_fprint(devnull, cur_td, st);
+            asn_encode(0, ATS_DER, cur_td, st, sink_null, 0);
+            asn_encode(0, ATS_CANONICAL_XER, cur_td, st, sink_null, 0);
+        } else fputc('-', out);
         ASN_STRUCT_FREE(*cur_td, st);
         free(b);
         return 1;
